@@ -221,6 +221,10 @@ func (l *SeqContext1) encode() []byte {
 	coverageOffset := total
 	total += l.Cov.EncodeLen()
 
+	if coverageOffset > 0xFFFF {
+		panic("coverage offset overflow")
+	}
+
 	buf := make([]byte, 0, total)
 	buf = append(buf,
 		0, 1, // format
@@ -628,6 +632,9 @@ func (l *SeqContext3) encode() []byte {
 	total := 6 + 2*len(l.Input) + 4*len(l.Actions)
 	coverageOffsets := make([]uint16, glyphCount)
 	for i, cov := range l.Input {
+		if total > 0xFFFF {
+			panic("coverage offset overflow")
+		}
 		coverageOffsets[i] = uint16(total)
 		total += cov.ToTable().EncodeLen()
 	}
@@ -881,10 +888,16 @@ func (l *ChainedSeqContext1) encode() []byte {
 	total := 6 + 2*len(l.Rules)
 	coverageOffset := total
 	total += l.Cov.EncodeLen()
+	if coverageOffset > 0xFFFF {
+		panic("ChainedSeqContext1 too large")
+	}
 	chainedSeqRuleSetOffsets := make([]uint16, chainedSeqRuleSetCount)
 	for i, rules := range l.Rules {
 		if rules == nil {
 			continue
+		}
+		if total > 0xFFFF {
+			panic("ChainedSeqContext1 too large")
 		}
 		chainedSeqRuleSetOffsets[i] = uint16(total)
 		total += 2 + 2*len(rules)
@@ -919,6 +932,11 @@ func (l *ChainedSeqContext1) encode() []byte {
 
 		pos := 2 + 2*chainedSeqRuleCount
 		for _, rule := range rules {
+			if pos > 0xFFFF ||
+				len(rule.Backtrack) > 0xFFFF || len(rule.Input) >= 0xFFFF ||
+				len(rule.Lookahead) > 0xFFFF || len(rule.Actions) > 0xFFFF {
+				panic("ChainedSeqContext1 too large")
+			}
 			buf = append(buf,
 				byte(pos>>8), byte(pos),
 			)
@@ -1241,6 +1259,9 @@ func (l *ChainedSeqContext2) encode() []byte {
 	total += l.Input.AppendLen()
 	lookaheadOffset := total
 	total += l.Lookahead.AppendLen()
+	if lookaheadOffset > 0xFFFF {
+		panic("ChainedSeqContext2 too large")
+	}
 	chainedSeqRuleSetOffsets := make([]uint16, chainedSeqRuleSetCount)
 	for i, rr := range l.Rules {
 		if rr == nil {
@@ -1288,7 +1309,9 @@ func (l *ChainedSeqContext2) encode() []byte {
 
 		pos := 2 + 2*chainedSeqRuleCount
 		for _, rule := range rr {
-			if pos > 0xFFFF {
+			if pos > 0xFFFF ||
+				len(rule.Backtrack) > 0xFFFF || len(rule.Input) >= 0xFFFF ||
+				len(rule.Lookahead) > 0xFFFF || len(rule.Actions) > 0xFFFF {
 				panic("ChainedSeqContext2 too large")
 			}
 			buf = append(buf,
@@ -1508,18 +1531,27 @@ func (l *ChainedSeqContext3) encode() []byte {
 	total += 4 * len(l.Actions)
 	backtrackCoverageOffsets := make([]uint16, backtrackGlyphCount)
 	for i, set := range l.Backtrack {
+		if total > 0xFFFF {
+			panic("coverage offset overflow")
+		}
 		backtrackCoverageOffsets[i] = uint16(total)
 		cov := set.ToTable()
 		total += cov.EncodeLen()
 	}
 	inputCoverageOffsets := make([]uint16, inputGlyphCount)
 	for i, set := range l.Input {
+		if total > 0xFFFF {
+			panic("coverage offset overflow")
+		}
 		inputCoverageOffsets[i] = uint16(total)
 		cov := set.ToTable()
 		total += cov.EncodeLen()
 	}
 	lookaheadCoverageOffsets := make([]uint16, lookaheadGlyphCount)
 	for i, set := range l.Lookahead {
+		if total > 0xFFFF {
+			panic("coverage offset overflow")
+		}
 		lookaheadCoverageOffsets[i] = uint16(total)
 		cov := set.ToTable()
 		total += cov.EncodeLen()
